@@ -1,4 +1,5 @@
 import YardlModel.Json
+import YardlProofs.JsonFlags
 
 /-!
   YardlProofs.JsonRoundTrip — `fromJ F t (toJ F t v) = some v` for every well-formed type and typed value.
@@ -129,11 +130,19 @@ theorem kinds_sub (F : Fmt) (t : Ty) (v : Val) (hw : WF t = true) (ht : HasType 
     cases p <;> cases v <;> simp [primHasType, Prim.range] at ht <;>
       simp [toJ, primToJ, kindOf, kinds, Prim.kinds, kNum, kStr, kBool, kArr]
   | enum b fl syms =>
-    simp [WF] at hw
     cases v <;> simp [HasType] at ht
-    simp only [toJ, hw.1, kinds]
-    simp
-    split <;> simp [kindOf, kStr, kNum]
+    cases fl with
+    | false =>
+      simp only [toJ, kinds]
+      simp
+      split <;> simp [kindOf, kStr, kNum]
+    | true =>
+      simp only [toJ, kinds, if_true]
+      split
+      · split <;> simp [kindOf, kArr, kNum]
+      · split
+        · simp [kindOf, kArr, kNum]
+        · split <;> simp [kindOf, kArr, kNum]
   | record fs => cases v <;> simp [HasType] at ht; simp [toJ, kindOf, kinds, kObj]
   | optional t => simp [kinds] at hk
   | union hn cs => simp [kinds] at hk
@@ -153,7 +162,7 @@ theorem toJ_ne_null_of_kinds (F : Fmt) (t : Ty) (v : Val) (hw : WF t = true) (ht
   -- null's bit is in no announced data type of a case type
   cases t with
   | prim p => cases p <;> simp [kindOf, kinds, Prim.kinds, kNull, kNum, kStr, kBool, kArr] at this
-  | enum b fl syms => simp [WF] at hw; simp [kindOf, kinds, hw.1, kNull, kNum, kStr] at this
+  | enum b fl syms => cases fl <;> simp [kindOf, kinds, kNull, kNum, kStr, kArr] at this
   | record fs => simp [kindOf, kinds, kNull, kObj] at this
   | optional t => simp [kinds] at hk
   | union hn cs => simp [kinds] at hk
@@ -313,16 +322,29 @@ mutual
       simp only [toJ, fromJ]
       exact primFromJ_primToJ F hF p v ht
     | .enum b fl syms, v, hw, ht => by
-      simp [WF] at hw
+      simp only [WF] at hw
       cases v <;> simp [HasType] at ht
       rename_i x
-      simp only [toJ, hw.1]
-      simp only [Bool.false_eq_true, if_false]
-      cases hs : symOfValue syms x with
-      | none => simp [fromJ]
-      | some s =>
-        simp only [fromJ, hw.1, Bool.false_eq_true, if_false]
-        exact find_of_symOfValue syms x s hw.2 hs
+      cases fl with
+      | false =>
+        simp only [toJ, Bool.false_eq_true, if_false]
+        cases hs : symOfValue syms x with
+        | none => simp [fromJ]
+        | some s =>
+          simp only [fromJ, Bool.false_eq_true, if_false]
+          exact find_of_symOfValue syms x s hw hs
+      | true =>
+        have h := flags_round_trip syms hw x
+        simp only [toJ, if_true]
+        generalize (if x = 0 then
+              (match symOfValue syms 0 with
+               | some z => J.arr [.str (strBytes z)]
+               | none => .arr [])
+            else if x < 0 then .int x
+            else match flagNames syms x.toNat [] with
+              | some names => .arr (names.map fun n => .str (strBytes n))
+              | none => .int x) = j at h ⊢
+        cases j <;> simp [fromJ] at h ⊢ <;> exact h
     | .record fs, v, hw, ht => by
       simp [WF] at hw
       cases v <;> simp [HasType] at ht
@@ -423,7 +445,7 @@ mutual
   theorem toJ_ne_null (F : Fmt) (hF : F.Ok) : ∀ (t : Ty) (v : Val), WF t = true → isNullable t = false → HasType t v = true →
       toJ F t v ≠ .null
     | .prim p, v, hw, _, ht => toJ_ne_null_of_kinds F _ v hw ht (by cases p <;> simp [kinds, Prim.kinds, kNum, kStr, kBool, kArr])
-    | .enum b fl syms, v, hw, _, ht => toJ_ne_null_of_kinds F _ v hw ht (by simp [WF] at hw; simp [kinds, hw.1, kStr, kNum])
+    | .enum b fl syms, v, hw, _, ht => toJ_ne_null_of_kinds F _ v hw ht (by cases fl <;> simp [kinds, kStr, kNum, kArr])
     | .record fs, v, hw, _, ht => toJ_ne_null_of_kinds F _ v hw ht (by simp [kinds, kObj])
     | .optional t, v, _, hn, _ => by simp [isNullable] at hn
     | .union hn cs, v, hw, hnn, ht => by
